@@ -239,8 +239,7 @@ def run(ctx):
     note = FE.ret()
     exn = fe.call_params()[0]
     nd = tq.args(note).get('notification_data', NONE) if tq.is_call(note, 'new message.PayloadNOTIFY') else NONE
-    is_ke = tq.eq_decider(FE.expr('type(%s)' % exn), ('global', 'message.InvalidKePayload'), True)
-    common.expect_term(ctx, 'N3', FE, tq.restrict(nd, is_ke), "pack('>H', %s.group)" % exn,
+    common.expect_term(ctx, 'N3', FE, common.notify_field_of(ctx, 'InvalidKePayload', 'notification_data')[1] or NONE, "pack('>H', %s.group)" % exn,
                        'the INVALID_KE_PAYLOAD notification carries the group as a 16-bit big-endian number', ('N3', 'notify-data'),
                        ctx.site(fe, fe.node))
     ie = ctx.func('message.InvalidKePayload.__init__')
@@ -304,12 +303,8 @@ def run(ctx):
     ctx.check(ok, 'N6', 'the refusal is answered with the single notification built from the exception', key=('N6', 'refusal-reply'),
               site=ctx.site(fi, fi.node))
     nt = tq.args(note).get('notification_type', NONE) if tq.is_call(note, 'new message.PayloadNOTIFY') else NONE
-    table = {}
-    for d in tq.find(nt, lambda x: x[0] == 'dict'):
-        for e in d[1]:
-            if len(e) == 2:
-                table[tq.text(e[0]).split('.')[-1]] = tq.text(e[1]).split('.')[-1]
-    ctx.check(table.get('NoProposalChosen') == 'NO_PROPOSAL_CHOSEN' and table.get('InvalidKePayload') == 'INVALID_KE_PAYLOAD'
+    ctx.check(common.notify_type_of(ctx, 'NoProposalChosen') == 'NO_PROPOSAL_CHOSEN'
+              and common.notify_type_of(ctx, 'InvalidKePayload') == 'INVALID_KE_PAYLOAD'
               and tq.contains(nt, FE.expr('type(%s)' % exn)), 'N6',
               'NoProposalChosen -> NO_PROPOSAL_CHOSEN and InvalidKePayload -> INVALID_KE_PAYLOAD (looked up by the exception\'s class)',
               key=('N6', 'table'), site=ctx.site(fe, fe.node))
